@@ -414,29 +414,46 @@ func keyExchange(klen int, ida, idb []byte, pri *PrivateKey, pub *PublicKey, rpr
 		return
 	}
 	zero := new(big.Int)
-	if vx.Cmp(zero) == 0 || vy.Cmp(zero) == 0 {
+	if vx.Cmp(zero) == 0 && vy.Cmp(zero) == 0 {
 		err = errors.New("V is infinite")
+		return
 	}
 	pzb := pub
 	if !thisISA {
 		pzb = &pri.PublicKey
 	}
 	zb, err := ZA(pzb, idb)
-	k, ok := kdf(klen, vx.Bytes(), vy.Bytes(), za, zb)
+	if err != nil {
+		return
+	}
+	// GM/T 0003.3: field elements enter KDF and the confirmation hashes as fixed 32-byte strings,
+	// and the initiator's ephemeral point R_A comes before the responder's R_B for both parties.
+	vxBuf, vyBuf := keFixed32(vx), keFixed32(vy)
+	k, ok := kdf(klen, vxBuf, vyBuf, za, zb)
 	if !ok {
 		err = errors.New("kdf: zero key")
 		return
 	}
-	h1 := BytesCombine(vx.Bytes(), za, zb, rpub.X.Bytes(), rpub.Y.Bytes(), rpri.X.Bytes(), rpri.Y.Bytes())
+	rax, ray, rbx, rby := rpri.X, rpri.Y, rpub.X, rpub.Y
 	if !thisISA {
-		h1 = BytesCombine(vx.Bytes(), za, zb, rpri.X.Bytes(), rpri.Y.Bytes(), rpub.X.Bytes(), rpub.Y.Bytes())
+		rax, ray, rbx, rby = rpub.X, rpub.Y, rpri.X, rpri.Y
 	}
+	h1 := BytesCombine(vxBuf, za, zb, keFixed32(rax), keFixed32(ray), keFixed32(rbx), keFixed32(rby))
 	hash := sm3.Sm3Sum(h1)
-	h2 := BytesCombine([]byte{0x02}, vy.Bytes(), hash)
+	h2 := BytesCombine([]byte{0x02}, vyBuf, hash)
 	S1 := sm3.Sm3Sum(h2)
-	h3 := BytesCombine([]byte{0x03}, vy.Bytes(), hash)
+	h3 := BytesCombine([]byte{0x03}, vyBuf, hash)
 	S2 := sm3.Sm3Sum(h3)
 	return k, S1, S2, nil
+}
+
+// keFixed32 returns v as a 32-byte big-endian string
+func keFixed32(v *big.Int) []byte {
+	b := v.Bytes()
+	if n := len(b); n < 32 {
+		b = append(zeroByteSlice()[:32-n], b...)
+	}
+	return b
 }
 
 func msgHash(za, msg []byte) (*big.Int, error) {
